@@ -1060,7 +1060,7 @@ class Interp:
         from . import listops
         ctx = self.ctx
         if isinstance(a, Poison) or isinstance(b, Poison):
-            return False, (path + ": poisoned value", None)
+            return None, (path + ": poisoned value", None)
         if a is None or b is None:
             return (a is None and b is None), (path + ": None vs value", None)
         if isinstance(a, bool) and isinstance(b, bool):
@@ -1103,8 +1103,8 @@ class Interp:
             ok, why = listops.same_term(self, a.term, b.term)
             if not ok:
                 if isinstance(why, tuple):
-                    return False, (path + ": " + why[0], why[1])
-                return False, (path + ": " + str(why), None)
+                    return ok, (path + ": " + why[0], why[1])
+                return ok, (path + ": " + str(why), None)
             return True, None
         if isinstance(a, (tuple, NT, AList)) and isinstance(b, (tuple, NT, AList)):
             ia, ib = self.bm.tuple_items(self, a), self.bm.tuple_items(self, b)
@@ -1144,7 +1144,7 @@ class Interp:
             return True, None
         if isinstance(a, bytes) and isinstance(b, bytes):
             return a == b, (path + ": bytes differ", None)
-        return False, (path + ": incomparable %s vs %s" % (type(a).__name__, type(b).__name__), None)
+        return None, (path + ": incomparable %s vs %s" % (type(a).__name__, type(b).__name__), None)
 
     # super(Class, self)
     def make_super(self, cls, obj):
